@@ -33,6 +33,8 @@ def main() -> int:
         if not (d / "patch.diff").exists() or (names and d.name not in names):
             continue
         meta = json.loads((d / "meta.json").read_text()) if (d / "meta.json").exists() else {}
+        if meta.get("retired") and d.name not in names:
+            continue  # no longer breaks the property at /repo HEAD (see meta.json); evaluated only when named
         dst = Path(f"/var/tmp/repid-seed-{os.getpid()}-{d.name}")
         shutil.rmtree(dst, ignore_errors=True)
         shutil.copytree("/repo", dst, ignore=shutil.ignore_patterns(".git", "__pycache__", ".pytest_cache", "docs", "benchmarks"))
